@@ -175,6 +175,17 @@ def explore(run, widen=1):
         for ch in chains(run, base):
             style = rng.choice(["dec", "dec", "hex", "plus"])
             cases.append(("chain", base, ch, chain_src(base, ch, style), "static chain %s %s" % (model_ty(base), " ".join(idx_model(ix) for ix in ch))))
+    # the same chains in other PLACES: inside the index of another access, inside an operand of an index, as assignment target,
+    # returned value, condition, call argument — the verdict is that of the chain
+    full = [(b, ch) for (k, b, ch, _, _) in cases if k == "chain" and b[0] == "int" and b[1] and len(ch) == len(dims_of(b))]
+    for base, ch in (full if run.tier == "thorough" else rng.sample(full, min(len(full), 120))):
+        e = "t" + "".join("[%s]" % idx_text(ix, "dec") for ix in ch)
+        line = "static chain %s %s" % (model_ty(base), " ".join(idx_model(ix) for ix in ch))
+        hdr = "function f(int i, uint u, float x, int2 w, %s, int[4] o) -> int " % decl(base, "t")
+        for body in ("{ o[%s]; return 0; }", "{ o[i + %s]; return 0; }", "{ return %s; }", "{ %s = 1; return 0; }", "{ if (%s > 0) { return 1; } return 0; }",
+                     "{ o[1] = o[%s] + 1; return 0; }", "{ for (int k = 0; k < %s; ++k) { } return 0; }"):
+            cases.append(("chain-place", base, ch, hdr + body % e, line))
+        cases.append(("chain-place", base, ch, "function g(int a) -> int { return a; }\n" + hdr + "{ return g(%s); }" % e, line))
     alphabet = "xyzwrgbaqs"
     masks = ["".join(m) for k in (1, 2, 3) for m in itertools.product(alphabet, repeat=k)]
     m4 = ["".join(m) for m in itertools.product(alphabet, repeat=4)]
@@ -212,6 +223,14 @@ def explore(run, widen=1):
         got = frontend(src)
         if got == "syntax-error":
             raise common.Infra("does not parse: " + src)
+        if kind == "chain-place":
+            want = spec_chain(a, b)
+            run.case(("chain-place", src), nontrivial=True); run.count("chain-place:" + got)
+            inp = dict(source=src, expected=want)
+            if model != got: run.mismatch(kind, inp, model, got)
+            if got != want:
+                run.fail("chain", inp, "%s is %sed, the rule on the access in it says %s" % (src, got, want), key="chain-place:" + ("accepts" if got == "accept" else "rejects"))
+            continue
         if kind == "chain":
             want = spec_chain(a, b)
             nontrivial = len(b) >= 2 or any(ix[0] == "L" and ix[1] not in (0, 1) for ix in b)
